@@ -170,6 +170,7 @@ def parseStyle (toks : List String) : Option Style :=
       else if k = "sr" then (parseBool v).map fun b => { st with relativize := b }
       else if k = "hc" then v.toNat?.map fun b => { st with hexChunk := b }
       else if k = "hs" then (ofHex v).map fun b => { st with hexSep := b }
+      else if k = "wfix" then v.toNat?.map fun b => { st with genFix := b }
       else none
     | _ => none
 
@@ -208,17 +209,19 @@ def handleC09 : List String → Option String
     some (match parseModify t with
       | some m => s!"ok {toHexP m.mod} {m.sign} {m.offset} {m.width} {m.base}"
       | none => "err SyntaxError")
-  | ["c09.read", origin, rel, chk, text] => do
+  | ["c09.read", origin, rel, chk, gfix, text] => do
     let o ← parseOptName origin
     let rel ← parseBool rel
     let chk ← parseBool chk
+    let gfix ← parseBool gfix
     let t ← ofHex text
-    some (showReadResult (zoneFromText t o rel chk))
-  | "c09.write" :: origin :: zone :: style => do
+    some (showReadResult (zoneFromText t o rel chk gfix))
+  | "c09.write" :: origin :: zrel :: zone :: style => do
     let o ← parseOptName origin
+    let zrel ← parseBool zrel
     let z ← parseZone zone
     let st ← parseStyle style
-    some (match zoneToText st o z with
+    some (match zoneToText st o z zrel with
       | .ok t => "ok " ++ toHexP t
       | .error e => "err " ++ e.toString)
   | _ => none
